@@ -2,6 +2,7 @@ package main
 
 import (
 	"fmt"
+	"go/constant"
 	"os"
 	"runtime"
 	"runtime/debug"
@@ -76,6 +77,7 @@ type HarnessRun struct {
 	Samples                           []map[string]string
 	Wall                              float64
 	Stats                             *SolverStats
+	StaticIDs                         []string // constant obligation ids in the harness source
 
 	maxSteps    int
 	schedBudget int
@@ -487,6 +489,7 @@ func (h *HarnessRun) run(prog *ssa.Program, hpkg *ssa.Package, base *State, tier
 		h.Incon = append(h.Incon, Inconclusive{h.Spec.Name, "missing", "harness function not found in " + hpkg.Pkg.Path()})
 		return
 	}
+	h.StaticIDs = staticObligationIDs(fn)
 	timeout := 60000
 	if tier == "thorough" {
 		timeout = 600000
@@ -646,3 +649,56 @@ func (e *Exec) process(s *State) {
 }
 
 var progressLog = os.Getenv("VCHECK_PROGRESS") != ""
+
+// staticObligationIDs lists the constant ids passed to zzAssert in the harness
+// function and the zz helpers it calls (same package), for the vacuity report.
+func staticObligationIDs(root *ssa.Function) []string {
+	seen := map[*ssa.Function]bool{}
+	ids := map[string]bool{}
+	var visit func(fn *ssa.Function)
+	visit = func(fn *ssa.Function) {
+		if fn == nil || seen[fn] || fn.Blocks == nil {
+			return
+		}
+		seen[fn] = true
+		for _, af := range fn.AnonFuncs {
+			visit(af)
+		}
+		for _, b := range fn.Blocks {
+			for _, in := range b.Instrs {
+				var cc *ssa.CallCommon
+				switch c := in.(type) {
+				case *ssa.Call:
+					cc = c.Common()
+				case *ssa.Defer:
+					cc = c.Common()
+				case *ssa.Go:
+					cc = c.Common()
+				}
+				if cc == nil {
+					continue
+				}
+				callee := cc.StaticCallee()
+				if callee == nil {
+					continue
+				}
+				if callee.Name() == "zzAssert" && len(cc.Args) == 2 {
+					if k, ok := cc.Args[1].(*ssa.Const); ok && k.Value != nil {
+						ids[constant.StringVal(k.Value)] = true
+					}
+					continue
+				}
+				if callee.Pkg == root.Pkg && strings.HasPrefix(callee.Name(), "zz") {
+					visit(callee)
+				}
+			}
+		}
+	}
+	visit(root)
+	out := make([]string, 0, len(ids))
+	for k := range ids {
+		out = append(out, k)
+	}
+	sort.Strings(out)
+	return out
+}
